@@ -8,7 +8,7 @@
 //!                           host would call an async-lifted export and its callback
 //!   body    c<k> create the future of call k     p<k> poll it once       a<k> await it
 //!           d<k> drop it      w suspend (Pending, resumed by the next poll of the body)
-//!           y `yield_async().await`
+//!           y `yield_async().await`     t<n> (cabi modes) continue under harness task n ∈ {1,2}
 //!   host    A<k>:<s> callee of call k moves to status s      D<k> deliver call k's pending event
 //!           (consumed while the body is suspended; when they run out the host cancels the task)
 use crate::host::{self, EVENT_CANCEL, EVENT_NONE};
@@ -33,6 +33,8 @@ enum Instr {
     Drop(usize),
     Wait,
     Yield,
+    /// cabi modes: from now on the body runs under harness task n (1 or 2)
+    Task(usize),
 }
 
 #[derive(Clone, Copy, Debug)]
@@ -78,6 +80,7 @@ fn parse(line: &str) -> Option<Script> {
             "d" => Instr::Drop(idx(arg)?),
             "w" if arg.is_empty() => Instr::Wait,
             "y" if arg.is_empty() => Instr::Yield,
+            "t" => Instr::Task(arg.parse::<usize>().ok().filter(|n| *n == 1 || *n == 2)?),
             _ => return None,
         });
     }
@@ -201,6 +204,15 @@ async fn body(instrs: Vec<Instr>, calls: Vec<*mut Call>) {
                 ev("y");
                 wit_bindgen::yield_async().await
             }
+            Instr::Task(n) => {
+                let p = TASK_PTRS.with(|t| t.borrow()[n]);
+                if p == 0 {
+                    ev(&format!("task{n}:skip"));
+                } else {
+                    ev(&format!("task{n}"));
+                    unsafe { host::wasip3_task_set(p as *mut c_void) };
+                }
+            }
         }
     }
     drop(slots);
@@ -241,6 +253,8 @@ struct TaskMaps {
 }
 thread_local! {
     static TASKS: RefCell<TaskMaps> = RefCell::new(TaskMaps::default());
+    /// addresses of the harness's `wasip3_task` structs, by task id (0 = not available in this mode)
+    static TASK_PTRS: RefCell<[usize; 3]> = RefCell::new([0; 3]);
 }
 
 unsafe extern "C" fn t_register(ptr: *mut c_void, w: u32, cb: Callback, cb_ptr: *mut c_void) -> *mut c_void {
@@ -279,12 +293,17 @@ impl Wake for Flag {
 }
 
 fn run_cabi(version: u32, s: &Script, calls: Vec<*mut Call>) {
-    const TID: usize = 1;
-    let mut task = Wasip3TaskV2 {
-        v1: Wasip3Task { version, ptr: TID as *mut c_void, waitable_register: t_register, waitable_unregister: t_unregister },
+    let mk = |tid: usize| Wasip3TaskV2 {
+        v1: Wasip3Task { version, ptr: tid as *mut c_void, waitable_register: t_register, waitable_unregister: t_unregister },
         vtable: &VTABLE,
     };
-    let prev = unsafe { host::wasip3_task_set(&mut task as *mut Wasip3TaskV2 as *mut c_void) };
+    // two component tasks hosted by the harness; the body starts under task 1 and may move (`t<n>`)
+    let mut task1 = mk(1);
+    let mut task2 = mk(2);
+    let p1 = &mut task1 as *mut Wasip3TaskV2 as usize;
+    let p2 = &mut task2 as *mut Wasip3TaskV2 as usize;
+    TASK_PTRS.with(|t| *t.borrow_mut() = [0, p1, p2]);
+    let prev = unsafe { host::wasip3_task_set(p1 as *mut c_void) };
     let flag = Arc::new(Flag(AtomicBool::new(false)));
     let waker: Waker = flag.clone().into();
     let mut cx = Context::from_waker(&waker);
@@ -309,16 +328,18 @@ fn run_cabi(version: u32, s: &Script, calls: Vec<*mut Call>) {
                 Dir::Adv(k, st) => host::advance(k, st),
                 Dir::Dlv(k) => {
                     let h = host::HOST.with(|h| h.borrow().call_handle[k]);
-                    let registered = TASKS.with(|m| m.borrow().maps.get(&TID).map(|m| m.contains_key(&h)).unwrap_or(false));
-                    if h != 0 && registered && host::has_event(h) {
-                        let (_e, code) = host::take_event(h).unwrap();
-                        let (cb, p) = TASKS.with(|m| m.borrow_mut().maps.get_mut(&TID).unwrap().remove(&h).unwrap());
-                        ev(&format!("dlv({h},{code})"));
-                        unsafe { cb(p as *mut c_void, code) };
-                        delivered = true;
-                        break;
-                    } else {
-                        ev(&format!("dlv{k}:skip"));
+                    // the task (lowest id first) whose map holds a registration for this waitable
+                    let holder = TASKS.with(|m| m.borrow().maps.iter().find(|(_, m)| m.contains_key(&h)).map(|(t, _)| *t));
+                    match holder {
+                        Some(tid) if h != 0 && host::has_event(h) => {
+                            let (_e, code) = host::take_event(h).unwrap();
+                            let (cb, p) = TASKS.with(|m| m.borrow_mut().maps.get_mut(&tid).unwrap().remove(&h).unwrap());
+                            ev(&format!("dlv({h},{code})"));
+                            unsafe { cb(p as *mut c_void, code) };
+                            delivered = true;
+                            break;
+                        }
+                        _ => ev(&format!("dlv{k}:skip")),
                     }
                 }
             }
@@ -330,14 +351,15 @@ fn run_cabi(version: u32, s: &Script, calls: Vec<*mut Call>) {
         }
     }
     drop(fut.take());
-    let left = TASKS.with(|m| m.borrow().maps.get(&TID).map(|m| m.len()).unwrap_or(0));
+    let left: usize = TASKS.with(|m| m.borrow().maps.values().map(|m| m.len()).sum());
     if left != 0 {
         ev(&format!("!registrations-left:{left}"));
     }
-    let clones = TASKS.with(|m| m.borrow().clones.get(&TID).copied().unwrap_or(0));
+    let clones: i64 = TASKS.with(|m| m.borrow().clones.values().map(|c| c.abs()).sum());
     if clones != 0 {
         ev(&format!("!task-clones-left:{clones}"));
     }
+    TASK_PTRS.with(|t| *t.borrow_mut() = [0; 3]);
     unsafe { host::wasip3_task_set(prev) };
 }
 
